@@ -316,8 +316,15 @@ def run(repo: Repo) -> Result:
                     v0 = st0.value
                     # `<render default> if self.default else 0`
                     v0 = unwrap_await(v0)
-                    shape = isinstance(v0, ast.IfExp) and text(v0.test) in ("self.default", "self.default is not None") and isinstance(v0.orelse, ast.Constant) and v0.orelse.value == 0
-                    ok = ok and shape and bool(cc & zero) and any(isinstance(c0, ast.Call) and callee_name(c0) in ("render", "render_async") and text(call_recv(c0)) == "self.default" for c0 in ast.walk(v0.body))
+                    has_else = {"self.default", "self.default is not None"}
+                    if isinstance(v0, ast.IfExp):
+                        shape = text(v0.test) in has_else and isinstance(v0.orelse, ast.Constant) and v0.orelse.value == 0
+                        body0 = v0.body
+                    else:
+                        # the same conditional as a statement: rendered under `self.default`
+                        shape = bool(cc & has_else)
+                        body0 = v0
+                    ok = ok and shape and bool(cc & zero) and any(isinstance(c0, ast.Call) and callee_name(c0) in ("render", "render_async") and text(call_recv(c0)) == "self.default" for c0 in ast.walk(body0))
             ok = ok and saw_loop and saw_else
         if not ok:
             res.add("C13-SHAPE", q, "else-iff-empty", "ForNode must render the loop when the sliced length is non-zero and its else block otherwise", f.file, f.line)
